@@ -1,7 +1,7 @@
 (** Lexer facts for Model/Newick.v: [span], [scan], [scan_iw], [consume_comment] consume
     input; characterisation of [consume_comment]. *)
 From Coq Require Import String Ascii ZArith QArith Bool Arith Lia List.
-From GT Require Import Base.UTree Model.Newick.
+From GT Require Import Base.UTree Model.Newick Spec.NewickSpec.
 Import ListNotations.
 Local Close Scope Q_scope.
 Local Open Scope string_scope.
@@ -46,6 +46,46 @@ Proof.
   intros p s a b H. apply span_app in H. subst. rewrite length_app_s. lia.
 Qed.
 
+
+
+(** [span] stops exactly at the end of a block of good characters followed by a bad one *)
+Definition stops_at (p : ascii -> bool) (s : string) : bool :=
+  match s with String c _ => negb (p c) | EmptyString => true end.
+
+Lemma span_exact : forall p a rest,
+    forall_chars p a = true -> stops_at p rest = true -> span p (a ++ rest) = (a, rest).
+Proof.
+  induction a; simpl; intros rest Ha Hr.
+  - destruct rest as [|c r]; simpl in *; [reflexivity|].
+    apply negb_true_iff in Hr. rewrite Hr. reflexivity.
+  - apply andb_true_iff in Ha. destruct Ha as [Ha1 Ha2]. rewrite Ha1.
+    rewrite (IHa rest Ha2 Hr). reflexivity.
+Qed.
+
+(** ... and somewhere inside a string that contains a bad character *)
+Lemma span_stop_inside : forall p a d k,
+    p d = false -> exists a1 a2, a = a1 ++ a2 /\ span p (a ++ String d k) = (a1, a2 ++ String d k).
+Proof.
+  induction a; simpl; intros d k Hd.
+  - exists "", "". rewrite Hd. split; reflexivity.
+  - destruct (p a) eqn:E.
+    + destruct (IHa d k Hd) as [a1 [a2 [Heq Hs]]]. rewrite Hs.
+      exists (String a a1), a2. split; [simpl; congruence|reflexivity].
+    + exists "", (String a a0). split; reflexivity.
+Qed.
+
+Lemma forall_chars_app : forall p a b,
+    forall_chars p (a ++ b) = forall_chars p a && forall_chars p b.
+Proof.
+  induction a; simpl; intros; [reflexivity|]. rewrite IHa. apply andb_assoc.
+Qed.
+
+Lemma forall_chars_impl : forall (p q : ascii -> bool) s,
+    (forall c, p c = true -> q c = true) -> forall_chars p s = true -> forall_chars q s = true.
+Proof.
+  induction s; simpl; intros Hpq H; [reflexivity|].
+  apply andb_true_iff in H. destruct H. rewrite (Hpq _ H), (IHs Hpq H0). reflexivity.
+Qed.
 
 Section Lex.
   Variable numeric : string -> bool.
@@ -165,5 +205,94 @@ Section Lex.
     destruct tok; try discriminate;
       try (apply IHfuel in H; lia).
     inversion H; subst. eapply scan_length; [eassumption|discriminate].
+  Qed.
+
+  (** * identifiers and numbers *)
+  Lemma scan_ident : forall n rest,
+      n <> "" ->
+      match n with String c _ => is_ws c = false | EmptyString => True end ->
+      forall_chars (is_ident false) n = true ->
+      stops_at (is_ident false) rest = true ->
+      scan numeric false (n ++ rest) = (if numeric n then NUMERIC else IDENT, n, rest).
+  Proof.
+    intros n rest Hne Hws Hall Hstop. destruct n as [|c n]; [congruence|].
+    simpl in Hall. apply andb_true_iff in Hall. destruct Hall as [Hc Hn].
+    simpl. rewrite Hws.
+    unfold is_ident, is_meta in Hc.
+    destruct (Ascii.eqb c "[") eqn:E3, (Ascii.eqb c "]") eqn:E4, (Ascii.eqb c "(") eqn:E1,
+             (Ascii.eqb c ")") eqn:E2, (Ascii.eqb c ",") eqn:E5, (Ascii.eqb c ":") eqn:E7,
+             (Ascii.eqb c ";") eqn:E6; simpl in Hc; try discriminate.
+    simpl. rewrite (span_exact _ _ _ Hn Hstop). reflexivity.
+  Qed.
+
+  Lemma scan_iw_direct : forall s tok lit r,
+      scan numeric false s = (tok, lit, r) -> tok <> WS -> scan_iw numeric s = (tok, lit, r, s).
+  Proof.
+    intros s tok lit r H Hne. unfold scan_iw. rewrite H. destruct tok; congruence.
+  Qed.
+
+  Lemma scan_iw_ident : forall n rest,
+      n <> "" ->
+      match n with String c _ => is_ws c = false | EmptyString => True end ->
+      forall_chars (is_ident false) n = true ->
+      stops_at (is_ident false) rest = true ->
+      scan_iw numeric (n ++ rest) = (if numeric n then NUMERIC else IDENT, n, rest, n ++ rest).
+  Proof.
+    intros. apply scan_iw_direct; [apply scan_ident; assumption|].
+    destruct (numeric n); discriminate.
+  Qed.
+
+  (** * consume_comment reads up to the first "]" *)
+  Lemma scan_in_comment : forall a c k,
+      Ascii.eqb a "]" = false ->
+      forall_chars (fun x => negb (Ascii.eqb x "]")) c = true ->
+      exists tok lit c',
+        scan numeric true (String a (c ++ String "]" k)) = (tok, lit, c' ++ String "]" k) /\
+        String a c = lit ++ c' /\ tok <> CLOSEBRACK /\ tok <> EOF /\ tok <> ILLEGAL /\
+        forall_chars (fun x => negb (Ascii.eqb x "]")) c' = true.
+  Proof.
+    intros a c k Ha Hc.
+    assert (Hsub : forall (p : ascii -> bool), p "]"%char = false ->
+              exists a1 a2, c = a1 ++ a2 /\ span p (c ++ String "]" k) = (a1, a2 ++ String "]" k) /\ forall_chars (fun x => negb (Ascii.eqb x "]")) a2 = true).
+    { intros p Hp. destruct (span_stop_inside p c "]" k Hp) as [a1 [a2 [Heq Hs]]].
+      exists a1, a2. split; [assumption|]. split; [assumption|].
+      subst c. rewrite forall_chars_app in Hc. apply andb_true_iff in Hc. tauto. }
+    simpl. destruct (is_ws a) eqn:Ews.
+    - destruct (Hsub is_ws eq_refl) as [a1 [a2 [Heq [Hs Hok]]]]. rewrite Hs.
+      exists WS, (String a a1), a2. subst c. repeat split; try discriminate; assumption.
+    - destruct (Ascii.eqb a "(") eqn:E1.
+      { exists OPENPAR, "(", c. apply Ascii.eqb_eq in E1. subst a. repeat split; try discriminate; assumption. }
+      destruct (Ascii.eqb a ")") eqn:E2.
+      { exists CLOSEPAR, ")", c. apply Ascii.eqb_eq in E2. subst a. repeat split; try discriminate; assumption. }
+      destruct (Ascii.eqb a "[") eqn:E3.
+      { exists OPENBRACK, "[", c. apply Ascii.eqb_eq in E3. subst a. repeat split; try discriminate; assumption. }
+      rewrite Ha.
+      destruct (Ascii.eqb a ",") eqn:E5.
+      { exists NEWSIBLING, ",", c. apply Ascii.eqb_eq in E5. subst a. repeat split; try discriminate; assumption. }
+      rewrite andb_false_r.
+      destruct (Ascii.eqb a ":") eqn:E7.
+      { exists STARTLEN, ":", c. apply Ascii.eqb_eq in E7. subst a. repeat split; try discriminate; assumption. }
+      destruct (Hsub (is_ident true) eq_refl) as [a1 [a2 [Heq [Hs Hok]]]]. rewrite Hs.
+      exists (if numeric (String a a1) then NUMERIC else IDENT), (String a a1), a2. subst c.
+      repeat split; try assumption; destruct (numeric (String a a1)); discriminate.
+  Qed.
+
+  Lemma consume_comment_spec : forall fuel c acc k,
+      String.length c < fuel ->
+      forall_chars (fun x => negb (Ascii.eqb x "]")) c = true ->
+      consume_comment numeric fuel acc (c ++ String "]" k) = COk (acc ++ c) k.
+  Proof.
+    induction fuel; intros c acc k Hlt Hc; [lia|].
+    destruct c as [|a c].
+    - simpl. rewrite app_empty_r. reflexivity.
+    - simpl in Hc. apply andb_true_iff in Hc. destruct Hc as [Ha Hc]. apply negb_true_iff in Ha.
+      destruct (scan_in_comment a c k Ha Hc) as [tok [lit [c' [Hs [Heq [H1 [H2 [H3 Hok]]]]]]]].
+      change (String a c ++ String "]" k) with (String a (c ++ String "]" k)).
+      cbn [consume_comment]. rewrite Hs.
+      assert (Hlen : String.length c' < fuel).
+      { assert (String.length (String a c) = String.length (lit ++ c')) by congruence.
+        rewrite length_app_s in H. simpl in H, Hlt. lia. }
+      destruct tok; try congruence;
+        (rewrite (IHfuel c' (acc ++ lit) k Hlen Hok); rewrite app_assoc_s; rewrite <- Heq; reflexivity).
   Qed.
 End Lex.
